@@ -3,7 +3,9 @@
 # quick checks against it; any exit code other than 0 is a false alarm.
 cd "$(dirname "$0")"
 ALL="C01 C02 C03 C04 C05 C06 C07 C08 C09 C10 C11 C12 C13 C14 C15 C16 C17 C18 C19 C20"
-for f in benign/*.diff; do
+for f in benign/benign-[0-9][0-9].diff; do
   echo "### $(basename $f .diff)"
+  # a refactoring whose lines a later fix: commit touched is kept ported to HEAD next to the original
+  [ -f "${f%.diff}.head.diff" ] && f="${f%.diff}.head.diff"
   ./mutate.sh "$f" $ALL 2>&1 | grep -E "repo tests|exit=[12]|PATCH" 
 done
